@@ -15,7 +15,7 @@ import (
 	"grits/zverif/harness"
 )
 
-var raceFn = regexp.MustCompile(`(?m)^  (grits/\S+?)\(\S*\)?\n`)
+var raceFn = regexp.MustCompile(`(?m)^  (grits/\S+)\(\)\s*$`)
 
 func init() {
 	harness.Register(&harness.Check{
